@@ -121,6 +121,6 @@ def sccs (trivial : Bool) (order : List Nat) (nbrs : Nat → List Nat) (fuel : N
 /-- steps that always suffice: per node one outer step, one expansion, one return; per edge one
 visit; plus the final exhausted step -/
 def fuelFor (order : List Nat) (nbrs : Nat → List Nat) : Nat :=
-  3 * order.length + (order.map (fun n => (nbrs n).length)).sum + 2
+  3 * order.length + (order.map (fun n => (nbrs n).length)).sum + 3
 
 end Ztr.Digraph
